@@ -42,6 +42,31 @@ func runC01(p *Prog, r *Report) {
 	checkIteratorEmission(p, r)
 	checkCrossProduct(p, r)
 	checkPortSources(p, r)
+	// R10: one probe per target also needs (a) fillers that keep nothing between calls - they are shared by
+	// all packet-building workers, a header struct reused across calls sends one target twice and another
+	// never (C07.R5 re-evaluated) - and (b) exactly the configured number of probe workers, at least one
+	// (C08.R2 worker-count clause re-evaluated: with none, completion is signalled with nothing probed)
+	r.Min("C01.R10", 5)
+	{
+		sub := NewReport("C01x", "quick")
+		runC07(p, sub)
+		for _, o := range sub.Obs {
+			if o.Rule == "C07.R5" && strings.HasSuffix(o.Construct, ".Fill") {
+				o2 := *o
+				o2.Rule = "C01.R10"
+				r.Obs = append(r.Obs, &o2)
+			}
+		}
+		sub8 := NewReport("C01x", "quick")
+		runC08(p, sub8)
+		for _, o := range sub8.Obs {
+			if o.Rule == "C08.R2" && strings.HasSuffix(o.Construct, "/worker-count") {
+				o2 := *o
+				o2.Rule = "C01.R10"
+				r.Obs = append(r.Obs, &o2)
+			}
+		}
+	}
 	// R7: file generators
 	sub := NewReport("C01", r.Tier)
 	for _, fn := range p.SrcFuncs() {
